@@ -76,7 +76,7 @@ int cmd_mt(int argc, char** argv) {
                 for (auto& e : log) {
                     if (!e.contains("closed") || !e["closed"].value("exists", false)) continue;
                     if (e["closed"].value("size", 0) == 0) continue;
-                    json job = {{"id", e["closed"]["id"]}, {"path", e["closed"]["path"]}, {"stream", (rng() & 1) ? "ifstream" : "sstream"},
+                    json job = {{"id", e["closed"]["id"]}, {"path", e["closed"]["path"]}, {"stream", (std::hash<std::string>()(cases[i]["id"].get<std::string>()) & 1) ? "ifstream" : "sstream"},
                                 {"dump", "full"}, {"tables", true}, {"render", true}};
                     json rr = run_read_job(job);
                     rr.erase("cpu");
